@@ -96,8 +96,21 @@ func checkC10(r *Run) {
 		}
 		r.Check("C10-R4", pb+": r and s are each set exactly once from their 32 bytes", r.P.Pos(fn.Pos()), len(seen) == 2 && seen["big.Int.SetBytes($0.S.Int, $1[32:64])"], fmt.Sprint(len(seen)))
 	}
+	ruleRecoverRange(r, "C10-R4")
+	// trailing bytes: the raw-transaction entry decodes the whole buffer or fails
+	r.RequireOnSuccess("C10-R5", "coin.DeserializeTransaction", req("decodes with the exact (whole buffer) generated decoder", "ok(coin.decodeTransactionExact($0, *))"))
+	r.RequireOnSuccess("C10-R5", "coin.decodeTransactionExact",
+		req("decoder succeeded", "ok(coin.decodeTransaction(*"),
+		req("whole buffer consumed", "uint64(len($0)) == coin.decodeTransaction(*)#0", "coin.decodeTransaction(*)#0 == uint64(len($0))"))
+	ruleExactDecoders(r, "C10-R5", "coin.")
+}
+
+// ruleRecoverRange (shared by C09 and C10): RecoverPublicKey accepts only 64 signature bytes with
+// 0 < r < n and 0 < s < n, tested directly on the parsed values.
+func ruleRecoverRange(r *Run, R4 string) {
+	const pb = "cipher/secp256k1-go/secp256k1-go2.Signature.ParseBytes"
 	const rp = "cipher/secp256k1-go/secp256k1-go2.RecoverPublicKey"
-	if fn := r.fn("C10-R4", rp); fn != nil {
+	if fn := r.fn(R4, rp); fn != nil {
 		ff := r.P.Facts(fn)
 		n := 0
 		for _, e := range ff.Exits() {
@@ -117,13 +130,13 @@ func checkC10(r *Run) {
 				return false
 			}
 			const O = "cipher/secp256k1-go/secp256k1-go2.TheCurve.Order.Int"
-			r.Check("C10-R4", rp+": accepted only with 0 < r < n", r.P.Pos(e.Ret.Pos()), has("0 < big.Int.Sign(local:cipher/secp256k1-go/secp256k1-go2.Signature.R.Int)") && has("big.Int.Cmp(local:cipher/secp256k1-go/secp256k1-go2.Signature.R.Int, "+O+") < 0"), "")
-			r.Check("C10-R4", rp+": accepted only with 0 < s < n", r.P.Pos(e.Ret.Pos()), has("0 < big.Int.Sign(local:cipher/secp256k1-go/secp256k1-go2.Signature.S.Int)") && has("big.Int.Cmp(local:cipher/secp256k1-go/secp256k1-go2.Signature.S.Int, "+O+") < 0"), "")
-			r.Check("C10-R4", rp+": accepted only with 64 signature bytes and a successful recovery", r.P.Pos(e.Ret.Pos()), has("len($0) == 64") && has("cipher/secp256k1-go/secp256k1-go2.Signature.Recover(local:cipher/secp256k1-go/secp256k1-go2.Signature, *)"), "")
+			r.Check(R4, rp+": accepted only with 0 < r < n", r.P.Pos(e.Ret.Pos()), has("0 < big.Int.Sign(local:cipher/secp256k1-go/secp256k1-go2.Signature.R.Int)") && has("big.Int.Cmp(local:cipher/secp256k1-go/secp256k1-go2.Signature.R.Int, "+O+") < 0"), "")
+			r.Check(R4, rp+": accepted only with 0 < s < n", r.P.Pos(e.Ret.Pos()), has("0 < big.Int.Sign(local:cipher/secp256k1-go/secp256k1-go2.Signature.S.Int)") && has("big.Int.Cmp(local:cipher/secp256k1-go/secp256k1-go2.Signature.S.Int, "+O+") < 0"), "")
+			r.Check(R4, rp+": accepted only with 64 signature bytes and a successful recovery", r.P.Pos(e.Ret.Pos()), has("len($0) == 64") && has("cipher/secp256k1-go/secp256k1-go2.Signature.Recover(local:cipher/secp256k1-go/secp256k1-go2.Signature, *)"), "")
 		}
-		r.Check("C10-R4", rp+": acceptance exits", "", n == 1, "")
+		r.Check(R4, rp+": acceptance exits", "", n == 1, "")
 		// nothing touches sig between parsing and the range tests
-		r.RequireCallOrder("C10-R4", rp, "the range tests follow the parse directly", pb, "big.Int.Sign")
+		r.RequireCallOrder(R4, rp, "the range tests follow the parse directly", pb, "big.Int.Sign")
 		for _, b := range fn.Blocks {
 			for _, in := range b.Instrs {
 				ci, ok := in.(ssa.CallInstruction)
@@ -133,7 +146,7 @@ func checkC10(r *Run) {
 				recv := ff.Term(ci.Common().Args[0])
 				nm := calleeName(ci.Common())
 				if (strings.HasPrefix(recv, "local:cipher/secp256k1-go/secp256k1-go2.Signature.R") || strings.HasPrefix(recv, "local:cipher/secp256k1-go/secp256k1-go2.Signature.S")) && nm != "big.Int.Sign" && nm != "big.Int.Cmp" {
-					r.Check("C10-R4", rp+": r/s are only compared, never rewritten, before recovery", r.P.Pos(ci.Pos()), false, nm+"("+recv+", …)")
+					r.Check(R4, rp+": r/s are only compared, never rewritten, before recovery", r.P.Pos(ci.Pos()), false, nm+"("+recv+", …)")
 				}
 			}
 		}
